@@ -258,6 +258,11 @@ func (d *OrderedDaemon) Start() {
 	d.lock.Lock()
 	defer d.lock.Unlock()
 
+	// the daemon might have been stopped while we were waiting for the lock
+	if d.IsStopped() {
+		return
+	}
+
 	if !d.IsRunning() {
 		d.running.Store(true)
 		for name, worker := range d.workers {
@@ -305,7 +310,13 @@ func (d *OrderedDaemon) shutdown() {
 
 	d.stopped.Store(true)
 	d.stoppedCtxCancel()
-	if !d.IsRunning() {
+
+	// a concurrent Start that did not see the stopped flag holds the lock until its workers are
+	// started: wait for it, so that these workers are stopped below
+	d.lock.RLock()
+	running := d.IsRunning()
+	d.lock.RUnlock()
+	if !running {
 		return
 	}
 
